@@ -48,7 +48,7 @@ pub fn logical(vt: &Vt, clamp_pending: bool) -> Logical {
 
 pub fn trim(v: &[MCell]) -> &[MCell] {
     let mut n = v.len();
-    while n > 0 && v[n - 1].ch == ' ' {
+    while n > 0 && v[n - 1].is_blank_default() {
         n -= 1;
     }
     &v[..n]
